@@ -74,6 +74,15 @@ Fixpoint dget (d : dval) (p : list pstep) : option dval :=
   end.
 Definition at_ (d : dval) (p : list string) : option dval := dget d (map PField p).
 
+(** "the builder succeeds and its result satisfies P" (stated with a match rather than an existential: the witness is a
+    large literal term the kernel would have to re-typecheck in every case of the proofs below) *)
+Definition built_sat (fn : string) (recv : option dval) (args : list dval) (fresh : list bytes) (issue until : bytes)
+  (P : dval -> list bytes -> Prop) : Prop :=
+  match built_value fn recv args fresh issue until with Some (d, r) => P d r | None => False end.
+Lemma built_sat_exists fn recv args fresh issue until P :
+  built_sat fn recv args fresh issue until P -> exists d r, built_value fn recv args fresh issue until = Some (d, r) /\ P d r.
+Proof. unfold built_sat. destruct (built_value fn recv args fresh issue until) as [[d r]|]; [eauto|contradiction]. Qed.
+
 Definition response_rec (reqid acs issuer audience : bytes) : dval :=
   DObj "provider.Response" [("RequestID", DStr reqid); ("AcsUrl", DStr acs); ("Issuer", DStr issuer); ("Audience", DStr audience); ("SendIP", DStr [])].
 Definition attributes_rec (email full given sur userid username : bytes) (custom : list dval) : dval :=
@@ -86,21 +95,21 @@ Definition sc_data : list pstep :=
 (** a failed response: status, message, request ID, issuer; the destination only when a consumer URL is known; and no
     assertion content at all *)
 Theorem failed_response_fields reqid acs issuer audience reason message id1 rest issue until :
-  exists d, built_value "makeFailedResponse" (Some (response_rec reqid acs issuer audience)) [DStr reason; DStr message; DStr (b "f")] (id1 :: rest) issue until = Some (d, rest) /\
+  built_sat "makeFailedResponse" (Some (response_rec reqid acs issuer audience)) [DStr reason; DStr message; DStr (b "f")] (id1 :: rest) issue until (fun d r => r = rest /\
     at_ d ["Id"] = Some (DStr id1) /\ at_ d ["InResponseTo"] = Some (DStr reqid) /\ at_ d ["IssueInstant"] = Some (DStr issue) /\
     at_ d ["Status"; "StatusCode"; "Value"] = Some (DStr reason) /\ at_ d ["Status"; "StatusMessage"] = Some (DStr message) /\
     at_ d ["Issuer"; "Text"] = Some (DStr issuer) /\
     at_ d ["Destination"] = (if is_empty acs then None else Some (DStr acs)) /\
-    at_ d ["Assertion"] = None.
+    at_ d ["Assertion"] = None).
 Proof.
-  destruct acs as [|c acs']; eexists; (split; [vm_compute; reflexivity|]); vm_compute; repeat split; reflexivity.
+  destruct acs as [|c acs']; vm_compute; repeat split; reflexivity.
 Qed.
 
 (** a successful response without custom attributes (those are covered by the correspondence): where the request ID, the
     consumer URL, the issuer, the audience, the two instants and the two fresh identifiers go *)
 Theorem success_response_fields reqid acs issuer audience email full given sur userid username id1 id2 rest issue until :
-  exists d, built_value "makeSuccessfulResponse" (Some (response_rec reqid acs issuer audience))
-              [attributes_rec email full given sur userid username []; DStr (b "f"); DNil] (id1 :: id2 :: rest) issue until = Some (d, rest) /\
+  built_sat "makeSuccessfulResponse" (Some (response_rec reqid acs issuer audience))
+              [attributes_rec email full given sur userid username []; DStr (b "f"); DNil] (id1 :: id2 :: rest) issue until (fun d r => r = rest /\
     at_ d ["Id"] = Some (DStr id1) /\ at_ d ["Assertion"; "Id"] = Some (DStr id2) /\
     at_ d ["InResponseTo"] = Some (DStr reqid) /\ dget d (sc_data ++ [PField "InResponseTo"]) = Some (DStr reqid) /\
     at_ d ["Destination"] = (if is_empty acs then None else Some (DStr acs)) /\
@@ -112,43 +121,43 @@ Theorem success_response_fields reqid acs issuer audience email full given sur u
     dget d [PField "Assertion"; PField "Conditions"; PField "AudienceRestriction"; PIndex 0; PField "Audience"] = Some (DList [DStr audience]) /\
     at_ d ["Assertion"; "Subject"; "NameID"; "Text"] = Some (DStr username) /\
     at_ d ["Status"; "StatusCode"; "Value"] = Some (DStr (b "urn:oasis:names:tc:SAML:2.0:status:Success")) /\
-    dget d [PField "Assertion"; PField "AuthnStatement"; PIndex 0; PField "SessionIndex"] = Some (DStr id2).
+    dget d [PField "Assertion"; PField "AuthnStatement"; PIndex 0; PField "SessionIndex"] = Some (DStr id2)).
 Proof.
   destruct acs as [|c0 acs']; destruct email as [|c1 e']; destruct full as [|c2 f']; destruct given as [|c3 g']; destruct sur as [|c4 s'];
     destruct userid as [|c5 u']; destruct username as [|c6 n'];
-    eexists; (split; [vm_compute; reflexivity|]); vm_compute; repeat split; reflexivity.
+    vm_compute; repeat split; reflexivity.
 Qed.
 
 Definition logout_rec (reqid url issuer : bytes) : dval :=
   DObj "provider.LogoutResponse" [("RequestID", DStr reqid); ("LogoutURL", DStr url); ("Issuer", DStr issuer)].
 
 Theorem logout_response_fields reqid url issuer reason message id1 rest issue until :
-  (exists d, built_value "makeFailedLogoutResponse" (Some (logout_rec reqid url issuer)) [DStr reason; DStr message; DStr (b "f")] (id1 :: rest) issue until = Some (d, rest) /\
+  (built_sat "makeFailedLogoutResponse" (Some (logout_rec reqid url issuer)) [DStr reason; DStr message; DStr (b "f")] (id1 :: rest) issue until (fun d r => r = rest /\
      at_ d ["Id"] = Some (DStr id1) /\ at_ d ["InResponseTo"] = Some (DStr reqid) /\ at_ d ["Destination"] = Some (DStr url) /\
      at_ d ["Issuer"; "Text"] = Some (DStr issuer) /\ at_ d ["IssueInstant"] = Some (DStr issue) /\
-     at_ d ["Status"; "StatusCode"; "Value"] = Some (DStr reason) /\ at_ d ["Status"; "StatusMessage"] = Some (DStr message)) /\
-  (exists d, built_value "makeSuccessfulLogoutResponse" (Some (logout_rec reqid url issuer)) [DStr (b "f")] (id1 :: rest) issue until = Some (d, rest) /\
+     at_ d ["Status"; "StatusCode"; "Value"] = Some (DStr reason) /\ at_ d ["Status"; "StatusMessage"] = Some (DStr message))) /\
+  (built_sat "makeSuccessfulLogoutResponse" (Some (logout_rec reqid url issuer)) [DStr (b "f")] (id1 :: rest) issue until (fun d r => r = rest /\
      at_ d ["Id"] = Some (DStr id1) /\ at_ d ["InResponseTo"] = Some (DStr reqid) /\ at_ d ["Destination"] = Some (DStr url) /\
      at_ d ["Issuer"; "Text"] = Some (DStr issuer) /\ at_ d ["IssueInstant"] = Some (DStr issue) /\
-     at_ d ["Status"; "StatusCode"; "Value"] = Some (DStr (b "urn:oasis:names:tc:SAML:2.0:status:Success"))).
-Proof. split; eexists; (split; [vm_compute; reflexivity|]); vm_compute; repeat split; reflexivity. Qed.
+     at_ d ["Status"; "StatusCode"; "Value"] = Some (DStr (b "urn:oasis:names:tc:SAML:2.0:status:Success")))).
+Proof. split; vm_compute; repeat split; reflexivity. Qed.
 
 (** the answer to an attribute query that names no attribute: request ID echoed on the response and in the subject
     confirmation, the querying party as the only audience, no destination / recipient / authentication statement *)
 Theorem attrquery_response_fields reqid issuer sp email full given sur userid username id1 id2 rest issue until :
-  exists d, built_value "makeAttributeQueryResponse" None
-              [DStr reqid; DStr issuer; DStr sp; attributes_rec email full given sur userid username []; DNil; DStr (b "f"); DNil] (id1 :: id2 :: rest) issue until = Some (d, rest) /\
+  built_sat "makeAttributeQueryResponse" None
+              [DStr reqid; DStr issuer; DStr sp; attributes_rec email full given sur userid username []; DNil; DStr (b "f"); DNil] (id1 :: id2 :: rest) issue until (fun d r => r = rest /\
     at_ d ["InResponseTo"] = Some (DStr reqid) /\ dget d (sc_data ++ [PField "InResponseTo"]) = Some (DStr reqid) /\
     at_ d ["Destination"] = None /\ dget d (sc_data ++ [PField "Recipient"]) = None /\
     at_ d ["Issuer"; "Text"] = Some (DStr issuer) /\ at_ d ["Assertion"; "Issuer"; "Text"] = Some (DStr issuer) /\
     dget d [PField "Assertion"; PField "Conditions"; PField "AudienceRestriction"; PIndex 0; PField "Audience"] = Some (DList [DStr sp]) /\
     at_ d ["Assertion"; "Subject"; "NameID"; "Text"] = Some (DStr username) /\
     at_ d ["Assertion"; "AuthnStatement"] = None /\
-    at_ d ["Assertion"; "Conditions"; "NotOnOrAfter"] = Some (DStr until).
+    at_ d ["Assertion"; "Conditions"; "NotOnOrAfter"] = Some (DStr until)).
 Proof.
   destruct email as [|c1 e']; destruct full as [|c2 f']; destruct given as [|c3 g']; destruct sur as [|c4 s'];
     destruct userid as [|c5 u']; destruct username as [|c6 n'];
-    eexists; (split; [vm_compute; reflexivity|]); vm_compute; repeat split; reflexivity.
+    vm_compute; repeat split; reflexivity.
 Qed.
 
 (** Attributes.GetSAML / GetNameID from source: the six standard attributes, each present iff its value is not empty, in
